@@ -163,6 +163,7 @@ class Contract:
         self.abstract = d.get('abstract', False)
         self.lemmas = d.get('lemmas', [])
         self.decreases_entry = d.get('decreases', None)
+        self.ghost_out = d.get('ghost_out', {})   # name -> (rank, [shape exprs]): ghost arrays the postcondition may mention
         self.sets = d.get('sets', {})   # attribute of self -> expression (post-state); an ensures when verified, an assignment when used
 
 
